@@ -241,28 +241,42 @@ def r_heads(prog, tier):
             fa = norm_test(n.ast, n.pol)
             if fa[0] == 'haskey' and fa[2] == 'HD':
                 E = fa[1]
-    idxdefs = {}
+    from ..values import expr_cases
+    use = None
     for n in gc.eval_nodes():
-        if n.kind == 'stmt' and isinstance(n.ast, ast.Assign) and idxv and unparse(n.ast.targets[0]) == idxv:
-            facts = tuple(x[0] for x in facts_at(gc, n.id) if x[0][0] == 'haskey')
-            idxdefs[unparse(n.ast.value)] = facts
+        if n.kind == 'stmt' and isinstance(n.ast, ast.Assign) and unparse(n.ast.value) == 'True' \
+                and unparse(n.ast.targets[0]).endswith("].data['head']"):
+            use = n
+    idxdefs = {}
+    recognised = True
+    if use is not None and E:
+        idx_expr = use.ast.targets[0].value.value.slice
+        for c in expr_cases(g, idx_expr, use.id):
+            if c.kind != 'value':
+                recognised = False
+                continue
+            facts = frozenset((fa[2], fa[3]) for fa in c.facts if fa[0] == 'haskey' and fa[1] == E)
+            idxdefs.setdefault(unparse(c.value), set()).add(facts)
+            for x in ast.walk(c.value):
+                if isinstance(x, ast.Name) and x.id not in (E, 'len'):
+                    recognised = False
+                if isinstance(x, ast.Call) and not (unparse(x.func) in ('len',) or unparse(x.func) == '%s.index' % E
+                                                    or unparse(x.func) == '%s[::-1].index' % E):
+                    recognised = False
     want = {
-        '0': (),
-        "%s.index('HD')" % E: (('haskey', E, 'HD', True),),
-        "len(%s) - 1 - %s[::-1].index('NK')" % (E, E): (('haskey', E, 'HD', False), ('haskey', E, 'NK', True)),
+        '0': {frozenset([('HD', False), ('NK', False)])},
+        "%s.index('HD')" % E: {frozenset([('HD', True)])},
+        "len(%s) - 1 - %s[::-1].index('NK')" % (E, E): {frozenset([('HD', False), ('NK', True)])},
     }
     ed = [v for (_, v) in name_defs(g, E) if isinstance(v, ast.AST)] if E else []
     ed_ok = len(ed) == 1 and isinstance(ed[0], ast.ListComp) and not ed[0].generators[0].ifs \
         and unparse(ed[0].elt) == "%s.data['edge']" % unparse(ed[0].generators[0].target)
     ok = True if (idxdefs == want and ed_ok) else None
-    if ok is None and E and idxv and idxdefs:
-        # same shape, different content: positive evidence that the heuristic changed
-        if set(idxdefs) != set(want) and len(idxdefs) == 3 and ed_ok:
-            ok = False
-        elif set(idxdefs) == set(want) and idxdefs != want:
-            ok = False
+    if ok is None and E and idxdefs and recognised and ed_ok and len(idxdefs) >= 2:
+        ok = False      # every case is an expression over the edge list this rule understands, but they are not the heuristic
+    shown = dict((k, sorted(sorted(x) for x in v)) for k, v in idxdefs.items())
     obs.append(Ob('R-HEADS/NEGRA', g.fq, 'NeGra heuristic: leftmost HD, else rightmost NK, else leftmost child', ok,
-                  'index definitions and their guards match' if ok else 'index definitions %s' % idxdefs,
+                  'index cases and their guards match' if ok else 'index cases %s' % shown,
                   construct='negra-idx', line=g.node.lineno))
     # rule based: presets and rejection
     g = prog.func('transform', 'mark_heads_by_rules')
@@ -334,7 +348,17 @@ def r_flags(prog, tier):
     for key, val in (('split', 'False'), (hb or 'head_block', 'True')):
         hit = [d for d in devs if unparse(d.x) == sv and d.keys == [key] and isinstance(d.value, ast.AST)
                and unparse(d.value) == val and cfg.in_every_iteration(L.id, d.node)]
-        obs.append(Ob('R-FLAGS/DEFAULT', f.fq, 'every node visited gets %s = %s' % (key, val), bool(hit),
+        anyk = [d for d in devs if unparse(d.x) == sv and d.keys and key in d.keys]
+        vd = True if hit else None
+        if not hit:
+            if not anyk and not prog.opaque_calls(f, [sv]):
+                vd = False       # the key is never stored on the visited node
+            elif anyk and all(isinstance(d.value, ast.AST) and unparse(d.value) == val for d in anyk) \
+                    and not any(cfg.in_every_iteration(L.id, d.node) for d in anyk):
+                vd = False       # the default exists but only on some paths
+            elif anyk and all(isinstance(d.value, ast.Constant) and unparse(d.value) != val for d in anyk):
+                vd = False       # another constant
+        obs.append(Ob('R-FLAGS/DEFAULT', f.fq, 'every node visited gets %s = %s' % (key, val), vd,
                       'unconditional store at the top of the traversal' if hit else 'the default is missing or '
                       'conditional: raising / get_label read a flag that was never set', construct='flag-dflt:' + key,
                       line=f.node.lineno))
@@ -353,7 +377,10 @@ def r_flags(prog, tier):
                and B.id in n.loops]
     one = len(creates) == 1 and cfg.in_every_iteration(B.id, creates[0].id) and creates[0].loops[-1] == B.id
     copy = one and unparse(creates[0].ast.value.args[0]) == 'trees.Tree(%s.data)' % sv
-    obs.append(Ob('R-FLAGS/SPLIT', f.fq, 'exactly one node per block is created, as a copy of the split node', one and copy,
+    vsp = True if (one and copy) else None
+    if len(creates) == 1 and creates[0].loops[-1] == B.id and not cfg.in_every_iteration(B.id, creates[0].id):
+        vsp = False              # a block node is created only on some paths
+    obs.append(Ob('R-FLAGS/SPLIT', f.fq, 'exactly one node per block is created, as a copy of the split node', vsp,
                   'one unconditional `%s` per block' % unparse(creates[0].ast) if one and copy else
                   'creation is not once per block / not a copy of the original node data', construct='split-one',
                   line=B.lineno))
@@ -362,40 +389,52 @@ def r_flags(prog, tier):
         hit = [d for d in devs if unparse(d.x) == fp and d.keys == [key] and isinstance(d.value, ast.AST)
                and unparse(d.value) == val and cfg.in_every_iteration(B.id, d.node) and cfg.nodes[d.node].loops[-1] == B.id
                and one and cfg.dominates(creates[0].id, d.node)]
-        obs.append(Ob('R-FLAGS/SPLIT', f.fq, 'a created block node gets %s = %s' % (key, val), bool(hit),
+        anyk = [d for d in devs if unparse(d.x) == fp and d.keys == [key]]
+        vf = True if hit else None
+        if not hit:
+            if not anyk and not prog.opaque_calls(f, [fp.split('[')[0]]):
+                vf = False
+            elif anyk and one and all(isinstance(d.value, ast.AST) and unparse(d.value) == val for d in anyk):
+                vf = False       # right value, but not with every creation
+            elif anyk and all(isinstance(d.value, (ast.Constant, ast.Name)) and unparse(d.value) != val for d in anyk) \
+                    and isinstance(ast.parse(val, mode='eval').body, (ast.Constant, ast.BinOp)):
+                vf = False       # another constant / the bare loop index
+        obs.append(Ob('R-FLAGS/SPLIT', f.fq, 'a created block node gets %s = %s' % (key, val), vf,
                       'unconditional store right after the creation' if hit else 'missing, conditional or different value',
                       construct='split-flag:' + key, line=B.lineno))
-    # head block propagation
-    props = [d for d in devs if unparse(d.x) == fp and d.keys == [hb or 'head_block'] and isinstance(d.value, ast.BoolOp)]
-    ok = False
-    why = 'propagation of the head block flag not found'
+    # head block propagation: compared as a boolean function of (old flag, child.head, child.split, child.head_block)
+    from ..values import truth_table
+    props = [d for d in devs if unparse(d.x) == fp and d.keys == [hb or 'head_block'] and isinstance(d.value, ast.AST)
+             and not (isinstance(d.value, ast.Constant))]
+    ok = None
+    why = 'propagation of the head block flag not found in a form this rule models'
     if len(props) == 1:
         d = props[0]
         slot = unparse(d.ast.targets[0])
-        inner = cfg.nodes[cfg.nodes[d.node].loops[-1]]
-        cv = unparse(inner.ast.target) if inner.kind == 'iter' else None
-        e = d.value
-        # slot or (child.head and (not child.split or child.h_block))
-        if isinstance(e.op, ast.Or) and unparse(e.values[0]) == slot and cv:
-            rest = e.values[1:]
-            headlit = "%s.data['head']" % cv
-            shape_ok = True
-            for r in rest:
-                if not (isinstance(r, ast.BoolOp) and isinstance(r.op, ast.And)
-                        and headlit in [unparse(v) for v in r.values]):
-                    shape_ok = False
+        inner = cfg.nodes[cfg.nodes[d.node].loops[-1]] if cfg.nodes[d.node].loops else None
+        cv = unparse(inner.ast.target) if inner is not None and inner.kind == 'iter' else None
+        if cv:
+            hbkey = unparse(d.ast.targets[0].slice)
+            atoms = [slot, "%s.data['head']" % cv, "%s.data['split']" % cv, "%s.data[%s]" % (cv, hbkey)]
+            try:
+                got = truth_table(f, d.value, d.node, atoms)
+                want = []
+                for k in range(16):
+                    s_, h_, sp_, hb_ = [bool((k >> i) & 1) for i in range(4)]
+                    want.append(s_ or (h_ and ((not sp_) or hb_)))
+                if got == tuple(want):
+                    ok = True
+                    why = 'a block becomes head block only through a child that is the head child and (is not split or is ' \
+                          'itself a head block) - checked on all 16 combinations of the four flags'
                 else:
-                    others = [v for v in r.values if unparse(v) != headlit]
-                    for o in others:
-                        terms = _bool_dnf_terms(o)
-                        hbkey = unparse(d.ast.targets[0].slice)
-                        want_terms = [{"not %s.data['split']" % cv}, {"%s.data[%s]" % (cv, hbkey)}]
-                        if sorted(map(sorted, terms)) != sorted(map(sorted, want_terms)):
-                            shape_ok = False
-            ok = shape_ok and bool(rest)
-            why = 'a block becomes head block only through a child that is the head child and (is not split or is ' \
-                  'itself a head block)' if ok else 'the condition lets a block become head block without its child ' \
-                  'being the head child (or drops the split / head-block test)'
+                    k = [i for i in range(16) if got[i] != want[i]][0]
+                    env = dict((a, bool((k >> i) & 1)) for i, a in enumerate(atoms))
+                    ok = False
+                    why = 'with %s the block %s head block, the documented rule says it %s' % (
+                        ', '.join('%s=%s' % (a.split('.data')[-1] if i else 'old flag', v) for i, (a, v) in enumerate(env.items())),
+                        'becomes' if got[k] else 'does not become', 'does' if want[k] else 'does not')
+            except Unrecognised as ex:
+                why = 'head block condition not a boolean combination of the four flags: %s' % ex
     obs.append(Ob('R-FLAGS/HEADBLOCK', f.fq, 'the head block is the block holding the head child (recursively its head block)',
                   ok, why, construct='headblock', line=f.node.lineno))
     # consumers read the flags the producer wrote
@@ -404,7 +443,8 @@ def r_flags(prog, tier):
     for n in walk_own(f.node):
         if isinstance(n, ast.Subscript) and isinstance(n.value, ast.Attribute) and n.value.attr == 'data' and const_str(n.slice):
             reads.add(const_str(n.slice))
-    ok = reads == {'split', hb or 'head_block'}
+    ok = True if reads == {'split', hb or 'head_block'} else (
+        False if not ({'split', hb or 'head_block'} <= reads) and not prog.opaque_calls(f, [f.params[0]]) else None)
     obs.append(Ob('R-FLAGS/CONSUMER', f.fq, 'raising reads exactly the flags boyd_split sets on every node', ok,
                   'reads %s' % sorted(reads), construct='consumer-raising', line=f.node.lineno, nontrivial=False))
     # binarization nodes are heads
@@ -417,7 +457,13 @@ def r_flags(prog, tier):
                and unparse(d.value) == 'True']
         cre = [n for n in cfg.eval_nodes() if n.kind == 'stmt' and isinstance(n.ast, ast.Assign) and unparse(n.ast.targets[0]) == p
                and 'trees.Tree(' in unparse(n.ast.value)]
-        ok = bool(hit) and bool(cre) and cfg.always_with(cre[0].id, hit[0].node) and cfg.same_loop(cre[0].id, hit[0].node)
+        ok = True if (bool(hit) and bool(cre) and cfg.always_with(cre[0].id, hit[0].node)
+                      and cfg.same_loop(cre[0].id, hit[0].node)) else None
+        if ok is None and not [d for d in devs if unparse(d.x) == p and d.keys and 'head' in d.keys] \
+                and not prog.opaque_calls(f, [p.split('[')[0].split('.')[0]]):
+            ok = False
+        elif ok is None and hit and cre and not cfg.always_with(cre[0].id, hit[0].node):
+            ok = False
         obs.append(Ob('R-FLAGS/BIN', f.fq, 'an added binarization node is marked head (the head spine runs through it)', ok,
                       '`%s.data[\'head\'] = True` with every creation' % p if ok else 'created without head mark',
                       construct='bin-head:' + p, line=f.node.lineno))
